@@ -1,6 +1,7 @@
 import CoapVerif.Model.MsgLayer
 import CoapVerif.Model.MsgLayerX
 import CoapVerif.Model.MsgLayerW
+import CoapVerif.Model.MsgLayerI
 import CoapVerif.Spec.SendQueue
 /- Line-protocol driver for the message-layer properties (C06, C08): interprets one scenario line with the model
 `Coap.Msg` and a scripted peer, printing the same canonical trace as harness/msg.c.
@@ -24,7 +25,7 @@ import CoapVerif.Spec.SendQueue
                       = `rxBad` by `Coap.C06.ack_request_code_is_bad_ack`)
              x        the socket write of this datagram FAILS (coap_socket_send returns -1: ECONNREFUSED, ENOBUFS, …); nothing
                       leaves; the attempt is printed as txf@T:S:C|N:MID:=.  A line with an `x` fate is interpreted with the
-                      write-failure model `Coap.MsgW.stepW` (Model/MsgLayerW.lean); not together with S: / i: / k: events
+                      write-failure model `Coap.MsgW.stepW` (Model/MsgLayerW.lean); not together with S: / k: / p: events
     ev     s:S:c|n:MID:R   application sends CON/NON (token = MID, PRNG byte R)
            t:DT            let DT ticks pass (arrivals in between are delivered at their time), then run the timers
            n               run the timers, then sleep for the returned wait (again and again) until the earliest queued deadline
@@ -34,10 +35,12 @@ import CoapVerif.Spec.SendQueue
            q:S:MID:CODE    an ACK with message id MID whose code is the request method 0.CODE (CODE = 1 … 31) arrives now
            h:S u:S f:S     session no longer established / coap_session_connected / coap_session_disconnected(NOT_DELIVERABLE)
            S:S:c|n:MID:R:TOK   application sends CON/NON with the explicit (2-byte) token TOK
-           i:S             an ICMP error is read from the socket of session S (coap_session_disconnected_lkd(ICMP_ISSUE))
+           i:S             an ICMP error is read from the socket of session S (coap_session_disconnected_lkd(ICMP_ISSUE)).  On a
+                           line without S: / k: / p: events, piggy-backed fates and DTLS sessions it is the event `icmp S` of
+                           `Coap.MsgI.stepI` (Model/MsgLayerI.lean: base model + ICMP; with `x` fates `Coap.MsgI.stepWI`)
            k:SECS          coap_context_set_keepalive(ctx, SECS)
            p:S:MID:TOK     a piggy-backed response (ACK with code 2.05, message id MID, token TOK) arrives now
-         A line containing an S: / i: / k: / p: event is interpreted with the extended model `Coap.MsgX.stepX`
+         A line containing an S: / k: / p: event is interpreted with the extended model `Coap.MsgX.stepX`
          (Model/MsgLayerX.lean: keepalive state, `coap_cancel_all_messages` as a pointer walk); every other line with
          `Coap.Msg.step` exactly as before.
   sq <ops…>               raw queue operations (see `sqStep`)
@@ -157,6 +160,13 @@ def evW (sm : Sim) (e : Ev) : Sim :=
   let lw := stepW { l := sm.l, wf := sm.wf, failed := sm.failed } e
   react { sm with l := lw.l, wf := lw.wf, failed := lw.failed }
 
+/-- `i:S` on a line of the base / write-failure model: `Coap.MsgI.stepI` / `stepWI` -/
+def evI (sm : Sim) (s : Nat) : Sim :=
+  if sm.wmode then
+    let lw := Coap.MsgI.stepWI { l := sm.l, wf := sm.wf, failed := sm.failed } (.icmp s)
+    react { sm with l := lw.l, wf := lw.wf, failed := lw.failed }
+  else react { sm with l := Coap.MsgI.stepI sm.l (.icmp s) }
+
 def ev (sm : Sim) (e : Ev) : Sim :=
   if sm.xmode then evX sm (.base e) else if sm.wmode then evW sm e else react { sm with l := step sm.l e }
 
@@ -246,7 +256,7 @@ def applyEv (sm : Sim) (w : String) : Option Sim :=
     let s ← s.toNat?; let mid ← mid.toNat?; let r ← r.toNat?; let tok ← tok.toNat?
     if !sm.xmode then none
     else if c = "c" then some (evX sm (.submitT s true mid r tok)) else if c = "n" then some (evX sm (.submitT s false mid r tok)) else none
-  | ["i", s] => do let s ← s.toNat?; if sm.xmode then some (evX sm (.icmp s)) else none
+  | ["i", s] => do let s ← s.toNat?; if sm.xmode then some (evX sm (.icmp s)) else some (evI sm s)
   | ["k", secs] => do let secs ← secs.toNat?; if sm.xmode then some (evX sm (.keepalive secs)) else none
   | ["p", s, mid, tok] => do
     let s ← s.toNat?; let mid ← mid.toNat?; let tok ← tok.toNat?
@@ -287,7 +297,7 @@ def msgStep (args : List String) : String :=
     | some ss, some fs =>
       let isPiggy (f : Fate) : Bool := match f with | .piggy _ => true | _ => false
       let protos := parseProto sw
-      let xmode := (evs.any fun w => w.startsWith "S:" || w.startsWith "i:" || w.startsWith "k:" || w.startsWith "p:")
+      let xmode := (evs.any fun w => w.startsWith "S:" || w.startsWith "k:" || w.startsWith "p:")
         || fs.any isPiggy || protos.any id
       let isFail (f : Fate) : Bool := match f with | .fail => true | _ => false
       let wmode := fs.any isFail
